@@ -232,38 +232,35 @@ def check_window(res, facts):
         if fn.name not in ("msm_bigint", "msm_bigint_wnaf") or fn.default_of or fn.impl or fn.kind == "Closure":
             continue
         key = "ark_ec|%s" % fn.id[-100:]
-        # the window width: argument of make_digits / step_by of the window starts (possibly inside closures)
+        # the window width: argument of make_digits / step_by of the window starts (possibly inside closures or in a
+        # helper of the same crate the function hands its window sums to)
+        import re as _re
+        from rules.c07 import norm
         widths = []
-        hosts = [fn] + facts.closures_of(fn)
-        envs = {}
-        for bi, si, s_ in fn.stmts():
-            r = s_.get("r")
-            if r and r.get("k") == "agg" and r.get("closure"):
-                envs[r["closure"]] = [E(fn, o) for o in r["ops"]]
+        tops = {fn.id: (fn, None)}
+        for bb_, t_, callee in DF.local_callees(facts, fn):
+            tops[callee.id] = (callee, {j + 1: E(fn, a) for j, a in enumerate(t_["args"])})
+        hosts = []
+        for top, amap in tops.values():
+            hosts.append(top)
+            hosts += [c for c in facts.fns(unit=fn.unit, crate=fn.crate) if c.kind == "Closure" and c.id.startswith(top.id + "::{closure")]
 
-        def lift(h, t_):
-            """express a closure-side term in the parent's terms"""
-            if h is fn:
-                return t_
-            ops = envs.get(h.id)
-            if ops is None:
-                return t_
-
-            def sub(x):
-                if not isinstance(x, tuple) or not x:
-                    return x
-                if x[0] == "arg" and x[1] == 1 and x[2] and isinstance(x[2][0], str) and x[2][0].isdigit() and int(x[2][0]) < len(ops):
-                    base = ops[int(x[2][0])]
-                    return base if len(x[2]) == 1 else ("proj", base, x[2][1:])
-                return tuple(sub(y) for y in x)
-            return sub(t_)
+        def lifted(h, operand):
+            """the operand of host h expressed in fn's own terms (captures resolved, helper parameters substituted)"""
+            raw = DF.expr(h, operand, depth=40)
+            top_id = _re.sub(r"(::\{closure#\d+\})+$", "", h.id)
+            if h.kind == "Closure":
+                raw = DF.lift_captures(facts, h, raw)
+            t2 = norm(raw)
+            amap = tops.get(top_id, (None, None))[1]
+            return DF.subst_args(t2, amap) if amap else t2
         for h in hosts:
             for bb, t in h.calls():
                 n = t["f"].get("name")
                 if n == "make_digits" and len(t["args"]) >= 2:
-                    widths.append(lift(h, E(h, t["args"][1])))
+                    widths.append(lifted(h, t["args"][1]))
                 if n == "step_by" and len(t["args"]) == 2:
-                    widths.append(lift(h, E(h, t["args"][1])))
+                    widths.append(lifted(h, t["args"][1]))
         widths = [w for w in widths if w is not None]
         if not widths:
             rule.bad(key, "window width not found (no make_digits / step_by over the scalar bits)", fn.loc)
@@ -277,10 +274,10 @@ def check_window(res, facts):
                     continue
                 for bb, t in h.calls():
                     if bb in scc and t["f"].get("name") == "next":
-                        r = E(h, t["args"][0])
+                        r = lifted(h, t["args"][0])
                         if isinstance(r, tuple) and r[0] == "agg" and r[1] == "Range" and r[2][0] == 0:
                             # innermost loop only: the range whose SCC is the smallest containing the doubling
-                            trips.append((len(scc), lift(h, r[2][1]), h))
+                            trips.append((len(scc), r[2][1], h))
         if not trips:
             rule.bad(key, "no loop that doubles the running total between windows", fn.loc)
             continue
